@@ -616,6 +616,11 @@ class ConfigParser(object):
     for p in params:
       if not self._parameter_name_re.match(p):
         raise ConfigParserException("Invalid parameter name '{1}' in function signature found in [Potential-Form]: '{0}'".format(pf, p))
+    # Names in the mathematical expressions are not case sensitive: 'A' and 'a' would be one variable.
+    lowered = [p.lower() for p in params]
+    for p in params:
+      if lowered.count(p.lower()) > 1:
+        raise ConfigParserException("Parameter names that differ only in case ('{1}') cannot be told apart in function signature found in [Potential-Form]: '{0}'".format(pf, p))
     return PotentialFormSignatureTuple(label, params, False)
 
   def _parse_params_section(self, section_name, parse_line_func):
